@@ -5,7 +5,8 @@ CFG = {
                                    ("random", "-mode random -tier %s" % tier),
                                    ("big", "-mode big -tier %s" % tier),
                                    ("ctor", "-mode ctor -tier %s" % tier),
-                                   ("retain", "-mode retain -tier %s" % tier)],
+                                   ("retain", "-mode retain -tier %s" % tier),
+                                   ("huge", "-mode huge -tier %s" % tier)],
     "signatures": {},
     "max_report": 2,
     "rule": "A case is one graph (kind U/D/WU/WD, vertex count, AddEdge sequence) followed by queries: Paths(s,strategy).To(v) for all "
@@ -17,6 +18,12 @@ CFG = {
             "big: chains, stars, in-stars, reversed and double chains of 1020..1030 vertices (list block size 1024); "
             "ctor: for all four graph types the graph is built by the variadic constructor from a prefix of the edge list and extended by AddEdge "
             "(every split point), E() and every adjacency list re-read after every AddEdge (also a random prefix in the random mode); "
+            "huge: 5000..9000 vertices for all four graph types (two fan levels + 3000-vertex path, lollipop = random blob + long path, grid, random graph with a "
+            "long tail; BFS frontiers spanning several 1024-slot queue blocks followed by thin tails), BFS/DFSi path lengths for every target, single paths, "
+            "Traverse, Orders, CC, validated natively by the driver with an independent BFS (reachability set, fewest-edges distance, real edges); "
+            "weighted graphs use integer weights k and, in half of the cases, the exact float64 weights k*2^-40 / k*2^-60 / mixed k*2^-40 with k*2^-10 "
+            "(the harness scales by an exact power of two and scales every printed weight/distance back, so the integer model predicts them exactly; "
+            "no tolerance anywhere); "
             "retain: several result objects of ONE graph object (Paths for several sources/strategies, Orders, CC/SCC, DirectedCycle, Topological, "
             "MST, SPT) are kept, further queries and AddEdge calls follow, then the earlier objects are read (twice) and checked with the proved "
             "checkers against the graph as it was when each object was created; every op runs under a 3 s watchdog. "
